@@ -1,3 +1,4 @@
 -- Root of the Helm library: imports every property module (and through them models and lemmas).
 import Helm.Props.C08
 import Helm.Props.C04
+import Helm.Props.C11
